@@ -7,9 +7,9 @@ import runner
 ID = "C20"
 LEAN_MODULES = ["Properties.C20"]
 THEOREMS = ["EngineModel.Properties.C20." + t for t in [
-    "C20_trim_infix", "C20_trim_keeps_interior", "C20_reject_iff", "C20_empty",
-    "C20_interior_unchanged", "C20_first_index", "C20_tempo_kept", "C20_bracket",
-    "C20_sorted", "C20_idempotent"]]
+    "C20_trim_infix", "C20_trim_keeps_interior", "C20_throw_only_if", "C20_reject_of", "C20_reject_iff",
+    "C20_empty", "C20_interior_unchanged", "C20_first_index", "C20_tempo_kept", "C20_bracket",
+    "C20_sorted", "C20_idempotent", "C20_idempotent_or_overflow"]]
 ASSUMPTIONS = [
     "theorems are over exact rationals (Num instance ratNum); the C++ is tied bit-for-bit to the same generic "
     "Lean code instantiated with hardware Float; floating-point rounding error itself is not bounded by a theorem",
